@@ -84,6 +84,10 @@ def run(prog, upto=None, hooks=None) -> Result:
         return N[x["n"]]
 
     def to_node(x):
+        if isinstance(x, Module):
+            return x.hugr.root
+        if hasattr(x, "parent_node"):
+            return x.parent_node
         return x.to_node() if hasattr(x, "to_node") else x
 
     for idx, ev in enumerate(prog["events"]):
